@@ -312,6 +312,39 @@ def w_converge(ctx, rng, i):
     ctx.bin("conv.err_over_phi", round(float(max(e / p for e, p in zip(errs, (0.1, 0.025, 0.00625))) / scale), 1))
 
 
+def w_two_grids(ctx, rng, i):
+    """the same samples and fibre parameters on two sampling rates (and back) within one process: each run must converge to the
+    NLSE solution of ITS grid."""
+    n = 128
+    n_pol = 1 + i % 2
+    fa, fb = (float(v) for v in rng.choice([4e10, 8e10, 1.6e11, 3.2e11, 6.4e11], 2, replace=False))
+    peak = float(rng.uniform(0.05, 0.5))
+    x = make_field(rng, n, n_pol, peak, ["gauss_train", "random_bl"][i % 2], fa)
+    L = float(rng.uniform(2, 30))
+    alpha = float(rng.uniform(0, 0.4))
+    b2 = float(rng.uniform(3, 25)) * float(rng.choice([1, -1]))
+    b3 = float(rng.uniform(-0.2, 0.2))
+    gamma = min(5.0, float(rng.uniform(1, 3)) / (peak * L))
+    phi = 0.01
+    a = alpha * math.log(10) / 10
+    Leff = (1 - math.exp(-a * L)) / a if a > 0 else L
+    nl = gamma * peak * Leff
+    ctx.describe(n=n, n_pol=n_pol, fs_sequence=[fa, fb, fa], peak=peak, L=L, alpha=alpha, beta_2=b2, beta_3=b3, gamma=gamma, phi_max=phi)
+    outs = []
+    for fs in (fa, fb, fa):
+        with core.quiet():
+            T.gv(sps=8, fs=fs)
+            y = D.FIBER(x, L, alpha, b2, b3, gamma, phi)
+        outs.append(y.signal)
+        refsol, achieved, _ = ref.nlse_reference(x.signal, fs, L, alpha, b2, b3, gamma, tol=1e-7, nmax=2 ** 15)
+        if achieved <= 3e-6 and np.all(np.isfinite(y.signal)):
+            g_ = math.sqrt(np.sum(np.abs(refsol) ** 2) / max(np.sum(np.abs(y.signal) ** 2), 1e-300))
+            err = relL2(y.signal * g_, refsol)
+            ctx.check("nlse.converges", err <= 6 * phi * max(1.0, nl) + 1e-6, f"relative error {err:.3g} vs the NLSE reference at fs={fs:.3g} after the sampling-rate sequence {[fa, fb, fa]} (phi_max={phi})")
+    ctx.check("grid.history", np.array_equal(outs[0], outs[2]), f"FIBER result at fs={fa:.3g} differs after a visit to fs={fb:.3g}")
+    ctx.case(("grids", n_pol, fa, fb), sample=dict(fs_sequence=[fa, fb, fa], L=L, gamma=gamma, beta_2=b2) if i < 2 else None)
+
+
 WORKLOADS = [
     Workload("general", w_general, 1500, 16000, budget=90),
     Workload("zero_input", w_zero_input, 8, 80, budget=30),
@@ -319,6 +352,7 @@ WORKLOADS = [
     Workload("onepol", w_onepol, 300, 4000, budget=90),
     Workload("converge", w_converge, 80, 1200, budget=300),
     Workload("deep", w_deep, 8, 160, budget=300),
+    Workload("two_grids", w_two_grids, 24, 600, budget=300),
 ]
 
 
